@@ -82,6 +82,10 @@ fn check_history(hist: &[NaiveDate], extra_probes: &[NaiveDate], perm_seed: u64)
     }
     probes.push(NaiveDate::MIN);
     probes.push(NaiveDate::MAX);
+    if cfg!(miri) {
+        // the interpreter is ~4 orders of magnitude slower: a handful of probes is enough there
+        probes.truncate(24);
+    }
     check_against(&cal, &set, &probes)?;
 
     // equality is set equality: a permutation of the history, and FromIterator
@@ -286,7 +290,7 @@ pub fn run(args: &Args, rep: &mut Report) {
         let mut r = Rng::new(args.seed, args.worker, k);
         let base = *r.pick(&[2000, 2024, 1900, 9999, 1, -1, 0, -400, 2100]);
         let mut years: Vec<i32> = vec![base];
-        match r.below(6) {
+        match if reduced { r.below(3) } else { r.below(6) } {
             0 => {}
             1 => years.extend([base - 1, base + 1]),
             2 => years.extend([base + 1, base + 2, base + 3, base - 7]),
@@ -294,7 +298,7 @@ pub fn run(args: &Args, rep: &mut Report) {
             4 => years.extend([-r.range(1, 900) as i32, r.range(1, 3000) as i32]),
             _ => years.extend(if reduced || !r.chance(3) { vec![base + 200] } else { vec![-20_000, 30_000] }),
         }
-        let len = if r.chance(10) { r.below(60) } else { r.below(10) } as usize;
+        let len = if r.chance(10) && !reduced { r.below(60) } else { r.below(10) } as usize;
         let mut hist: Vec<NaiveDate> = (0..len).map(|_| rand_date(&mut r, &years)).collect();
         if r.chance(30) && !hist.is_empty() {
             let dup = *r.pick(&hist);
